@@ -55,7 +55,7 @@ var pagerFamilies = []pagerFamily{
 }
 
 var pagerItemKinds = []wc{{"link", 50}, {"plain", 8}, {"decorated", 5}, {"js", 7}, {"empty", 5}, {"offsite", 5}, {"mailto", 3}, {"malformed", 3},
-	{"pattern2", 5}, {"queryonly", 6}, {"fragment", 2}, {"lookalike", 3}, {"userinfo", 3}, {"schemerel", 3}, {"upperhost", 2}, {"relative", 5}, {"otherscheme", 2}, {"padded", 4}, {"docrel", 5}, {"withfragment", 4}}
+	{"pattern2", 5}, {"queryonly", 6}, {"fragment", 2}, {"lookalike", 3}, {"userinfo", 3}, {"schemerel", 3}, {"upperhost", 2}, {"relative", 5}, {"otherscheme", 2}, {"padded", 4}, {"docrel", 5}, {"withfragment", 4}, {"schemerel-offsite", 3}, {"gap", 3}}
 
 func genPager(t *rapid.T) pagerPage {
 	g := newG(t, articleProfile())
@@ -78,6 +78,8 @@ func genPager(t *rapid.T) pagerPage {
 		switch kind {
 		case "link":
 			return fam.link(base, i)
+		case "schemerel-offsite":
+			return fam.link("//"+otherHost, i)
 		case "withfragment":
 			// a pager link that also names a place in the target page
 			u := fam.link(base, i)
@@ -166,6 +168,9 @@ func genPager(t *rapid.T) pagerPage {
 			label = g.pick("lblk", "("+label+")", "["+label+"]", " "+label+" ")
 		}
 		switch kind {
+		case "gap":
+			// numbers left out of the pager: two runs of consecutive numbers
+			items = append(items, g.pick("gapt", "…", "...", "&hellip;"))
 		case "plain":
 			items = append(items, label)
 		case "decorated":
